@@ -9,9 +9,11 @@ import Blue.Proofs.CompactTables
 import Blue.Proofs.CompactEntry
 import Blue.Proofs.StoreHistGc
 import Blue.Proofs.StoreHistGcTree
+import Blue.Proofs.GcSpec
+import Blue.Proofs.StoreHistGcB
 /-! # Property C05 — compaction conserves every version; GC discards only what policy permits
 
-Property theorems only (helper lemmas live in `Blue/Proofs/{Gc,GcPolicy,Conserve,CompactCut,
+Property theorems only (helper lemmas live in `Blue/Proofs/{Gc,GcPolicy,GcSpec,Conserve,CompactCut,
 Compaction}.lean`).
 
 Models (all executable, all run by the driver against the real crates):
@@ -20,6 +22,8 @@ Models (all executable, all run by the driver against the real crates):
   `AnyDeterminer`, `AllDeterminer`; `now` a parameter) built from the policy AST `Policy`;
   `gcLoop`/`gcGroup` are the `versions = n` instance (`gc_versions_instance`).
 * `Blue/Model/GcParse.lean` — the nom parser of the policy language.
+* `Blue/Model/GcSpec.lean` — the declarative reading of the policy language (`keeps`, `tombKept`,
+  `specKeeps`, `kept`, `specKeepsE`); not a model of code, the specification `gcP` is proved equal to.
 * `Blue/Model/Compact.lean` — the compaction loop over the merging-cursor model and the cut of
   the merged run into output files.
 
@@ -36,9 +40,17 @@ collector that retains nothing meets it too).  *Model facts / list lemmas* (no c
 because other statements cite them): `children_perm_merged`, `cut_flatten`, `compaction_conserves`
 — the "inputs" there are *defined* as the owner-filters of `M`.
 
-What there is no theorem for (claim text `partial`): a declarative specification of the policy
-language (`ttl`, `any`, `all`; `versions = N` for `N > 1`) independent of the loop — the oracle's
-definitional reading is the only specification; that GC runs only at the last level; the write
+Declarative specification of the policy language (block `GcSpec`, `Blue/Model/GcSpec.lean`):
+`keeps` / `tombKept` / `specKeeps` are defined by recursion on the policy with no determiner, loop or
+carried state; `gcP_eq_spec` / `gcP_eq_filter`: for every well-formed policy (any nesting), every
+`now`, every sorted run the collector's output is EXACTLY the kept entries (equality, not a
+sub-list); `gc_discards_only_what_policy_permits`, `gc_keeps_current_value_iff`,
+`versions_n_keeps_exactly`, `ttl_keeps_exactly`, `spec_is_prefix_closed`.  The specification is the
+CODE's reading: `versions = N` counts a value under tombstones as two and keeps or drops the pair
+together (so `versions = 2` on `V T V` keeps one version; the doc comment promises "at least this
+many") - it is not the doc comment's.
+
+What there is no theorem for (claim text `partial`): that GC runs only at the last level; the write
 side of a GC (discard setsum); the multi-builder's cut points; that the policy parser's result is
 well formed (`Policy.WF`) and that its fuel suffices. -/
 namespace Blue.Props.C05
@@ -637,6 +649,170 @@ end Tree
 end StoreHistGc
 -- END StoreHistGc
 
+-- BEGIN GcSpec
+/-! ## the policy language, declaratively (`Blue/Model/GcSpec.lean`, proofs `Blue/Proofs/GcSpec.lean`)
+
+`keeps p now h i` - "the VALUE at position `i` (0 = newest) of a key with history `h` is retained" -
+is defined by recursion on the policy (`versions n`: `vcount h i ≤ n`, a value with a tombstone
+directly above it counting two; `expires m`: `now - m ≤ ts`; `any`: some member; `all`: every
+member); `tombKept`: a tombstone is written iff the position below it is a retained value;
+`specKeeps` joins the two; `kept` lists the retained positions; `specKeepsE` is the entry-level
+form over a whole run.  No determiner, no loop and no carried state occur in these definitions. -/
+section GcSpec
+
+/-- **the collector's output is EXACTLY what the declarative semantics keeps**, key by key -/
+theorem gcP_eq_spec {K : Type} [DecidableEq K] (p : Policy) (hp : p.WF) (now : Nat) (k0 : Option K)
+    (gs : List (K × List (Ent K))) (hr : Runs gs) :
+    gcP p now k0 (flat gs) = gs.flatMap (fun g => kept p now g.2) :=
+  Blue.Gc.gcP_eq_spec p hp now k0 gs hr
+
+/-- the same as a `filter` of the input run by an entry-level predicate (the history of an
+    entry's key = the entries of the run with that key; its position = the number of those with
+    a larger timestamp): equality, not a sub-list -/
+theorem gcP_eq_filter {K : Type} [DecidableEq K] (p : Policy) (hp : p.WF) (now : Nat) (k0 : Option K)
+    (gs : List (K × List (Ent K))) (hr : Runs gs)
+    (hts : ∀ g ∈ gs, g.2.Pairwise (fun a b => b.ts < a.ts)) :
+    gcP p now k0 (flat gs) = ents ((flat gs).filter (specKeepsE p now (flat gs))) :=
+  Blue.Gc.gcP_eq_filter p hp now k0 gs hr hts
+
+/-- a version is in the output iff the semantics keeps it … -/
+theorem gc_keeps_iff_spec {K : Type} [DecidableEq K] (p : Policy) (hp : p.WF) (now : Nat)
+    (k0 : Option K) (gs : List (K × List (Ent K))) (hr : Runs gs)
+    (hts : ∀ g ∈ gs, g.2.Pairwise (fun a b => b.ts < a.ts))
+    (g : K × List (Ent K)) (hg : g ∈ gs) (i : Nat) (hi : i < g.2.length) :
+    (g.1, g.2[i].ts) ∈ gcP p now k0 (flat gs) ↔ specKeeps p now g.2 i = true :=
+  Blue.Gc.mem_gcP_iff p hp now k0 gs hr hts g hg i hi
+
+/-- … and **dropped iff the semantics does not keep it** -/
+theorem gc_discards_only_what_policy_permits {K : Type} [DecidableEq K] (p : Policy) (hp : p.WF)
+    (now : Nat) (k0 : Option K) (gs : List (K × List (Ent K))) (hr : Runs gs)
+    (hts : ∀ g ∈ gs, g.2.Pairwise (fun a b => b.ts < a.ts))
+    (g : K × List (Ent K)) (hg : g ∈ gs) (i : Nat) (hi : i < g.2.length) :
+    (g.1, g.2[i].ts) ∉ gcP p now k0 (flat gs) ↔ specKeeps p now g.2 i = false :=
+  Blue.Gc.gc_discards_only_what_policy_permits p hp now k0 gs hr hts g hg i hi
+
+/-- the retained values of a key are a prefix of its history.  The loop does NOT stop at the first
+    refusal (`continue 'iterating`: every value is offered, every child of `any`/`all` is asked);
+    the prefix shape is a consequence of every clause being monotone and timestamps decreasing -/
+theorem spec_is_prefix_closed {K : Type} [DecidableEq K] (p : Policy) (now : Nat) (h : List (Ent K))
+    (hts : h.Pairwise (fun a b => b.ts < a.ts)) (i j : Nat) (hij : i ≤ j) (hj : j < h.length)
+    (hk : keeps p now h j = true) : keeps p now h i = true :=
+  Blue.Gc.spec_is_prefix_closed p now h hts i j hij hj hk
+
+/-- **the current value of a key is kept IFF** the policy retains a newest value of that timestamp
+    (`keepsNewestAt`: `versions n`: `1 ≤ n`; `expires m`: `now - m ≤ ts`; `any`: some member; `all`:
+    every member) - `newest_value_kept_every_policy` made two-sided -/
+theorem gc_keeps_current_value_iff {K : Type} [DecidableEq K] (p : Policy) (hp : p.WF) (now : Nat)
+    (k0 : Option K) (gs : List (K × List (Ent K))) (hr : Runs gs)
+    (hts : ∀ g ∈ gs, g.2.Pairwise (fun a b => b.ts < a.ts))
+    (g : K × List (Ent K)) (hg : g ∈ gs) (v : Ent K) (rest : List (Ent K))
+    (hgv : g.2 = v :: rest) (hv : v.tomb = false) :
+    (g.1, v.ts) ∈ gcP p now k0 (flat gs) ↔ keepsNewestAt p now v.ts = true :=
+  Blue.Gc.gc_keeps_current_value_iff p hp now k0 gs hr hts g hg v rest hgv hv
+
+/-- `selectsNewest` (data independent) implies `keepsNewestAt` at every timestamp -/
+theorem selectsNewest_keeps_newest (p : Policy) (hp : p.WF) (now ts : Nat)
+    (h : p.selectsNewest now = true) : keepsNewestAt p now ts = true :=
+  Blue.Gc.selectsNewest_keepsNewestAt now ts p hp h
+
+/-- `versions = n`, as the code counts -/
+theorem versions_n_keeps_exactly {K : Type} [DecidableEq K] (n now : Nat) (h : List (Ent K)) (i : Nat) :
+    specKeeps (.versions n) now h i
+      = (match h[i]? with
+        | some e =>
+          if e.tomb then
+            (match h[i + 1]? with
+             | some e' => !e'.tomb && decide (vcount h (i + 1) ≤ n)
+             | none => false)
+          else decide (vcount h i ≤ n)
+        | none => false) :=
+  Blue.Gc.versions_n_keeps_exactly n now h i
+
+/-- `ttl_micros = m`, as the code compares -/
+theorem ttl_keeps_exactly {K : Type} [DecidableEq K] (m now : Nat) (h : List (Ent K)) (i : Nat) :
+    specKeeps (.expires m) now h i
+      = (match h[i]? with
+        | some e =>
+          if e.tomb then
+            (match h[i + 1]? with
+             | some e' => !e'.tomb && decide (now - m ≤ e'.ts)
+             | none => false)
+          else decide (now - m ≤ e.ts)
+        | none => false) :=
+  Blue.Gc.ttl_keeps_exactly m now h i
+
+/-! non-vacuity: key 1 with history `V@9 T@8 T@7 V@6 V@5 T@4 V@3`, key 2 with `T@5 V@4` -/
+def hist7 : List (Ent Nat) :=
+  [⟨1, 9, false⟩, ⟨1, 8, true⟩, ⟨1, 7, true⟩, ⟨1, 6, false⟩, ⟨1, 5, false⟩, ⟨1, 4, true⟩, ⟨1, 3, false⟩]
+def sample7 : List (Nat × List (Ent Nat)) := [(1, hist7), (2, [⟨2, 5, true⟩, ⟨2, 4, false⟩])]
+
+theorem sample7_runs : Runs sample7 :=
+  ⟨by show ∀ p ∈ sample7, ∀ e ∈ p.2, e.key = p.1; decide, by decide, by decide⟩
+theorem sample7_ts : ∀ g ∈ sample7, g.2.Pairwise (fun a b => b.ts < a.ts) := by decide
+
+/-- the counts `VersionsDeterminer` reaches at the seven positions -/
+example : (List.range 7).map (vcount hist7) = [1, 1, 1, 3, 4, 4, 6] := by decide
+/-- `versions = 2`: ONE version survives.  The doc comment ("retain at least this many versions";
+    a version = a value or the oldest tombstone of a run) reads as `V@9 T@7`, a count of the first
+    two value-bearing positions as `V@9 V@6`; the code counts `T@7 V@6` as two, reaches 3 and drops
+    both - and `V@5`, `V@3` after them -/
+example : kept (.versions 2) 0 hist7 = [(1, 9)] := by decide
+example : gcP (.versions 2) 0 (some 0) (flat sample7) = [(1, 9), (2, 5), (2, 4)] := by decide
+example : kept (.versions 3) 0 hist7 = [(1, 9), (1, 7), (1, 6)] := by decide
+example : kept (.versions 4) 0 hist7 = [(1, 9), (1, 7), (1, 6), (1, 5)] := by decide
+/-- `any [versions 1, ttl 5]` at `now = 10` (threshold 5): the union -/
+example : kept (.any [.versions 1, .expires 5]) 10 hist7 = [(1, 9), (1, 7), (1, 6), (1, 5)] := by decide
+/-- `all [versions 4, ttl 4]` at `now = 10` (threshold 6): the intersection -/
+example : kept (.all [.versions 4, .expires 4]) 10 hist7 = [(1, 9), (1, 7), (1, 6)] := by decide
+/-- the collector and the specification on the whole run, nested policy -/
+example : gcP (.all [.versions 4, .any [.expires 4, .versions 1]]) 10 (some 0) (flat sample7)
+    = sample7.flatMap (fun g => kept (.all [.versions 4, .any [.expires 4, .versions 1]]) 10 g.2) := by
+  decide
+example : gcP (.any [.versions 1, .expires 5]) 10 (some 0) (flat sample7)
+    = ents ((flat sample7).filter (specKeepsE (.any [.versions 1, .expires 5]) 10 (flat sample7))) :=
+  gcP_eq_filter _ (by simp [Policy.WF, Policy.WFL]) 10 _ sample7 sample7_runs sample7_ts
+example : ents ((flat sample7).filter (specKeepsE (.any [.versions 1, .expires 5]) 10 (flat sample7)))
+    = [(1, 9), (1, 7), (1, 6), (1, 5)] := by decide
+/-- dropped / kept positions -/
+example : specKeeps (.versions 2) 0 hist7 3 = false ∧ specKeeps (.versions 2) 0 hist7 0 = true
+    ∧ specKeeps (.versions 3) 0 hist7 2 = true ∧ specKeeps (.versions 3) 0 hist7 1 = false := by decide
+example : (1, 6) ∉ gcP (.versions 2) 0 (some 0) (flat sample7) :=
+  (gc_discards_only_what_policy_permits (.versions 2) (by simp [Policy.WF]) 0 (some 0) sample7
+    sample7_runs sample7_ts (1, hist7) (by simp [sample7]) 3 (by decide)).mpr (by decide)
+example : (1, 9) ∈ gcP (.expires 2) 10 (some 0) (flat sample7) :=
+  (gc_keeps_current_value_iff (.expires 2) trivial 10 (some 0) sample7 sample7_runs sample7_ts
+    (1, hist7) (by simp [sample7]) _ _ rfl rfl).mpr (by decide)
+/-- an expired ttl drops the current value: `now - m = 10 > 9` -/
+example : keepsNewestAt (.expires 2) 12 9 = false ∧ (1, 9) ∉ gcP (.expires 2) 12 (some 0) (flat sample7) := by
+  decide
+example : hist7.Pairwise (fun a b => b.ts < a.ts) ∧ keeps (.versions 4) 0 hist7 4 = true
+    ∧ keeps (.versions 4) 0 hist7 3 = true := by decide
+
+end GcSpec
+-- END GcSpec
+/-! ## the obligations as the C01 driver evaluates them on every real collecting compaction
+
+The flags `newest=` / `sub=` the driver appends to its answer on a performed compaction into the
+last level are `Blue.StoreHistGcB.newestKeptB` / `subB` (model file, executable); they imply
+`hnewest` / `hsub` of `GcCompactionOk`. -/
+theorem step_flag_newest_sound (pay : Nat → Nat → Option Blue.StoreHist.Payload)
+    (ins outs : List (Blue.Spec.Ver Nat)) (h : Blue.StoreHistGcB.newestKeptB pay ins outs = true) :
+    Blue.StoreHistGc.NewestKept pay ins outs :=
+  Blue.StoreHistGcB.newestKeptB_sound pay ins outs h
+
+theorem step_flag_sub_sound (ins outs : List (Blue.Spec.Ver Nat))
+    (h : Blue.StoreHistGcB.subB ins outs = true) : ∀ e ∈ outs, e ∈ ins :=
+  Blue.StoreHistGcB.subB_sound ins outs h
+
+/-- non-vacuity: the newest version of key 1 is a tombstone that was dropped with the value below it -/
+example : Blue.StoreHistGcB.newestKeptB
+    (fun k t => if k = 1 ∧ t = 5 then some none else if k = 1 ∧ t = 3 then some (some 0) else none)
+    [(1, 5), (1, 3)] [] = true := by decide
+/-- … and dropping only the tombstone (uncovering the value) fails the flag -/
+example : Blue.StoreHistGcB.newestKeptB
+    (fun k t => if k = 1 ∧ t = 5 then some none else if k = 1 ∧ t = 3 then some (some 0) else none)
+    [(1, 5), (1, 3)] [(1, 3)] = false := by decide
+
 end Blue.Props.C05
 
 #print axioms Blue.Props.C05.gc_versions_instance
@@ -683,3 +859,14 @@ end Blue.Props.C05
 #print axioms Blue.Props.C05.obligations_of_collector
 #print axioms Blue.Props.C05.last_level_has_nothing_below
 #print axioms Blue.Props.C05.gc_step_from_selector
+#print axioms Blue.Props.C05.gcP_eq_spec
+#print axioms Blue.Props.C05.gcP_eq_filter
+#print axioms Blue.Props.C05.gc_keeps_iff_spec
+#print axioms Blue.Props.C05.gc_discards_only_what_policy_permits
+#print axioms Blue.Props.C05.spec_is_prefix_closed
+#print axioms Blue.Props.C05.gc_keeps_current_value_iff
+#print axioms Blue.Props.C05.selectsNewest_keeps_newest
+#print axioms Blue.Props.C05.versions_n_keeps_exactly
+#print axioms Blue.Props.C05.ttl_keeps_exactly
+#print axioms Blue.Props.C05.step_flag_newest_sound
+#print axioms Blue.Props.C05.step_flag_sub_sound
